@@ -520,20 +520,32 @@ def _nested_ctors(prog: Program, res: Result):
 
 # ---------------------------------------------------------------------------
 class _RW(c02._RWHooks):
+    def __init__(self, sel_names):
+        super().__init__()
+        self.sel_names = set(sel_names)
+
     def on_stmt(self, s, st, eng):
-        if isinstance(s, ast.Assign) and len(s.targets) == 1 and isinstance(s.targets[0], ast.Name) and s.targets[0].id in ("selected_coordinates", "best_field"):
+        if isinstance(s, ast.Assign) and len(s.targets) == 1 and isinstance(s.targets[0], ast.Name) and s.targets[0].id in self.sel_names:
             st.env["__prev_" + s.targets[0].id] = st.env.get(s.targets[0].id, Const("unbound"))
         return None
 
     def on_assign(self, key, val, stmt, st, eng):
-        if key in ("selected_coordinates", "best_field") and not (isinstance(val, Const) and val.value is None):
+        if key in self.sel_names and not (isinstance(val, Const) and val.value is None):
             prev = st.env.get("__prev_" + key)
             st.emit("SELECT", (key, val, isinstance(prev, Const) and prev.value is None), stmt)
         super().on_assign(key, val, stmt, st, eng)
 
 
+def _sorted_zip_of_param(it: ast.Call, fn: ast.FunctionDef) -> bool:
+    """it is  sorted(zip(<keys>, <P>), ...)  with P a parameter of fn (the points that are being reordered)"""
+    if not (it.args and isinstance(it.args[0], ast.Call) and attr_chain(it.args[0].func) == "zip" and len(it.args[0].args) == 2):
+        return False
+    p = it.args[0].args[1]
+    return isinstance(p, ast.Name) and p.id in {a.arg for a in fn.args.args}
+
+
 ROWWISE_ACCEPT = {
-    "first-sweep-element": "best_field's first value is the field regenerated at the spacing the bisection last found feasible (same deterministic generator); no guard expresses it",
+    "first-sweep-element": "the sweep accumulator's first value is the field regenerated at the spacing the bisection last found feasible (same deterministic generator); no guard expresses it",
     "single-borehole": "a single borehole's response does not depend on where it stands: the 1X1 evaluation at the origin stands for the last borehole of the sparse field",
 }
 
@@ -542,18 +554,19 @@ def _rowwise(prog: Program, res: Result, lb: int):
     q = f"{SR}.RowWiseModifiedBisectionSearch.search"
     fi = prog.func(q)
     res.analysed(q)
-    hooks = _RW()
+    final, via, extra = sc.rowwise_names(fi.node)
+    hooks = _RW(final | via)
     eng = Engine(prog, fi, hooks, loop_bound=2, max_paths=400000, zero_trip=False)  # 2 trips: the sweep's update branch needs a second one
 
     def sd(s):
         if sc.seed(s):
             return True
         for n in ast.walk(s):
-            if isinstance(n, ast.Name) and n.id in ("selected_coordinates", "best_field") and isinstance(n.ctx, ast.Store):
+            if isinstance(n, ast.Name) and n.id in (final | via) and isinstance(n.ctx, ast.Store):
                 return True
         return False
 
-    eng.slice(fi.node.body, sd, extra_names={"selected_coordinates", "best_field", "upper_field", "lower_field"})
+    eng.slice(fi.node.body, sd, extra_names=set(extra))
     st0 = State()
     for p in fi.params():
         st0.env[p] = Rat.atom(p)
@@ -580,11 +593,11 @@ def _rowwise(prog: Program, res: Result, lb: int):
             why = f"guarded by excess({vkey(val)[:40]}, max_height) <= 0"
             if not okg:
                 txt = norm_stmt(e.node)
-                if key == "best_field" and was_none:
+                if key in via and was_none:
                     okg, why = True, "accepted: " + ROWWISE_ACCEPT["first-sweep-element"]
-                elif key == "selected_coordinates" and "best_field" in ast.unparse(e.node.value):
-                    okg, why = True, "best_field (checked where it is assigned)"
-                elif key == "selected_coordinates" and _sign_from_trail(pre, sc.exc(Seq([Seq([Rat.const(0), Rat.const(0)], "list")], "list"), sc.MAXH)) is not None \
+                elif key in final and isinstance(e.node.value, ast.Name) and e.node.value.id in via:
+                    okg, why = True, f"{e.node.value.id} (checked where it is assigned)"
+                elif key in final and _sign_from_trail(pre, sc.exc(Seq([Seq([Rat.const(0), Rat.const(0)], "list")], "list"), sc.MAXH)) is not None \
                         and "+" not in _sign_from_trail(pre, sc.exc(Seq([Seq([Rat.const(0), Rat.const(0)], "list")], "list"), sc.MAXH)):
                     okg, why = True, "accepted: " + ROWWISE_ACCEPT["single-borehole"]
             k2 = (e.node.lineno, okg, why[:40])
@@ -609,7 +622,7 @@ def _rowwise(prog: Program, res: Result, lb: int):
                     and isinstance(v.generators[0].target, ast.Tuple) and len(v.generators[0].target.elts) == 2
                     and isinstance(v.generators[0].target.elts[1], ast.Name) and v.generators[0].target.elts[1].id == v.elt.id
                     and isinstance(v.generators[0].iter, ast.Call) and attr_chain(v.generators[0].iter.func) == "sorted"
-                    and "zip(distances, other_points)" in ast.unparse(v.generators[0].iter))
+                    and _sorted_zip_of_param(v.generators[0].iter, ps[0]))
             okp = okp and good
         res.ob("R01.1", "row-wise: point_sort returns the given points reordered (unfiltered comprehension over sorted(zip(distances, other_points)))", okp and bool(rets), prog.loc(fi, ps[0]))
         if not (okp and rets):
